@@ -148,16 +148,22 @@ def exec_while(I, node, env):
     ann = I.local_loops.get((fname, k)) or I.registry.loop_annotation(fname, k)
     if node.orelse:
         raise OutOfReach("while/else")
-    if ann is None:
-        # exact unrolling while the condition stays decidable on the path
+    if ann is None or ann.get("unroll"):
+        # exact unrolling while the condition stays decidable on the path; with an `unroll=N` annotation an
+        # undecided condition forks (complete when the inputs are range-bounded by the contract's case split)
         n = 0
+        limit = ann.get("unroll") if ann else None
         while True:
             cond = I.truth(I.eval(node.test, env))
             cb = conc_bool_or_none(cond)
             if cb is None:
                 d = R._decide(I.ctx, cond)
                 if d is None:
-                    raise OutOfReach(f"loop {fname}#{k}: symbolic trip count and no loop annotation")
+                    if limit is None:
+                        raise OutOfReach(f"loop {fname}#{k}: symbolic trip count and no loop annotation")
+                    if n > limit:
+                        raise OutOfReach(f"loop {fname}#{k}: more than {limit} unrolled iterations with an undecided condition")
+                    d = I.ctx.branch(cond)
                 cb = d
             if not cb:
                 return
